@@ -87,4 +87,15 @@ func init() {
 	add("c06-rdslice-midi-peek", "C06.rdslice", "format/midi/midi.go", "\t\t\t\t\t// ... meta-event\n\t\t\t\t\tif ix < n {", "\t\t\t\t\t// ... meta-event\n\t\t\t\t\tif ix <= n {", "peekEvent")
 	add("c06-rdslice-caff-loop", "C06.rdslice", "format/caff/caff.go", "\t\tfor i := uint64(0); i < length; i++ {\n\t\t\traw[i] ^= byte(obfsKey)", "\t\tfor i := uint64(0); i <= length; i++ {\n\t\t\traw[i] ^= byte(obfsKey)", "decodeCAFF")
 	add("c06-rdslice-aiff-pstring", "C06.rdslice", "format/riff/aiff.go", "\treturn s[0:min(int(l), len(s))]", "\treturn s[0 : l+1-pad]", "aiffPString")
+	// C06.lenmin
+	add("c06-lenmin-midi-sysex", "C06.lenmin", "format/midi/sysex.go",
+		"\t\t\tbytes := d.PeekBytes(int(length - 1))\n\t\t\tN := len(bytes)\n\n\t\t\tif N > 0 && bytes[N-1] == 0xf7 {\n\t\t\t\tctx.casio = false",
+		"\t\t\tbytes := d.PeekBytes(int(length - 1))\n\t\t\tN := len(bytes)\n\n\t\t\tif bytes[N-1] == 0xf7 {\n\t\t\t\tctx.casio = false", "decodeSysExMessage")
+	add("c06-lenmin-mp4-push-dropped", "C06.lenmin", "format/mp4/boxes.go", "\tctx.path = append(ctx.path, pathEntry{typ: typ, data: parentData})\n", "", "no longer holds")
+	// C06.errfirst
+	add("c06-errfirst-defer-close", "C06.errfirst", "pkg/decode/decode.go", "\tr, err := fn(bbBR)\n\tif err != nil {", "\tr, err := fn(bbBR)\n\tdefer r.Close()\n\tif err != nil {", "FieldFormatReaderLen")
+	// C06.loopguard
+	add("c06-loopguard-fresh-detector", "C06.loopguard", "format/apple/bookmark/apple_bookmark.go", "d.SeekAbs(int64(baseOffset), decodeRecord)", "d.SeekAbs(int64(baseOffset), makeDecodeRecord())", "maker:")
+	add("c06-loopguard-detect-errorf", "C06.loopguard", "format/apple/bookmark/apple_bookmark.go", "func() { d.Fatalf(\"infinite recursion detected in record decode function\") },", "func() { d.Errorf(\"infinite recursion detected in record decode function\") },", "detect:")
+	add("c06-loopguard-push-dropped", "C06.loopguard", "format/apple/bplist/bplist.go", "\tdefer pl.pld.PushAndPop(idx, func() { d.Fatalf(\"infinite recursion detected\") })()\n", "", "seek:")
 }
